@@ -48,7 +48,7 @@ ASSUMPTIONS.update({
     "vsv_fields_by_name": "the loop that fills expected_fields_by_name from struct_info.fields (touches no Env)", "vsv_take_field": "FxHashMap::remove", "vsv_is_type_param": "HashSet::contains",
     "vsv_bind": "FxHashMap::insert of Type::from_value(&field_value)", "vsv_expected_ty": "Type::from_hint(..).unwrap_or_err_ty(): reads env.types only", "vsv_none_left": "FxHashMap::is_empty",
     "vsv_missing_names": "into_keys().map(format!).collect().join(\", \")", "vsv_type_args": "the loop that reads type_arg_bindings for each type parameter (touches no Env)", "vsv_struct_type": "Type::UserDefined { kind: Struct, name, args }",
-    "as_string": "ErrorMessage::as_string renders the message",
+    "as_string": "ErrorMessage::as_string renders the message", "vfun_runtime_type": "Type::from_fun_info(..).unwrap_or_err_ty() reads env only",
     "type_representation": "inspects the value only", "get_type_def": "Env::get_type_def reads env.types only", "vtn_eq": "TypeName == TypeName",
     "eval_call": "eval_call: the same clauses are PROVED for the whole function in unit calls",
     "eval_method_call": "eval_method_call: the same clauses are PROVED for the whole function in unit calls",
@@ -76,7 +76,7 @@ LEMMAS = {}
 UNVERIFIED = {
     "C34": ["only the run-time check of a qualified access `ns::item` (eval_namespace_access) is under contract: it yields the namespace's value and does so only for items marked public",
             "unqualified imports: insert_imported_namespace copies into the importing namespace only names the imported one marks public (under contract); how exported_syms is populated when a file is loaded (load_toplevel_items), the check-time rule (infer_namespace_access in the type checker) and cyclic import loading are NOT under contract"],
-    "C06": ["the FunLiteral arm of eval_expr (builds a closure value; it neither pushes nor pops bindings blocks in the source) is the only arm not under contract",
+    "C06": [
             "every step function behind the arms is under contract (here, or eval_call / eval_method_call in unit calls, eval_block / eval_break / eval_continue in unit blocks); in eval_struct_value the struct definition, the by-name maps and the type arguments are abstracted to opaque values (rules S1..S12: they touch no Env)",
             "the operand-count / loop-index preconditions of the arms (evaluator invariants established by earlier steps) are assumed",
             "function frames: a frame is created with one bindings block (Bindings::new_with) and dropped whole when the call returns"],
@@ -412,6 +412,9 @@ impl ErrorMessage {
     #[verifier::external_body]
     pub fn as_string(&self) -> (r: String) { unimplemented!() }
 }
+/// Type::from_fun_info(..).unwrap_or_err_ty(): reads env.types and the type bindings only
+#[verifier::external_body]
+pub fn vfun_runtime_type(fun_info: &FunInfo, env: &Env) -> (r: Type) { unimplemented!() }
 /// `b.as_ref()` on a Box: the boxed value (Box::as_ref has no Verus specification)
 pub fn vbox_ref<T>(b: &Box<T>) -> (r: &T) ensures *r == **b { &**b }
 #[verifier::external_body]
@@ -666,6 +669,9 @@ def build(tier):
         rw.simple("R4", r"for \(_, field_expr\) in field_exprs\.iter\(\) \{", "let mut __i1: usize = 0; while __i1 < field_exprs.len() { let field_expr = &field_exprs[__i1].1; __i1 += 1;"),
         rw.simple("local", r"Value::new\(Value_::String\(s\.clone\(\)\)\)", "Value::new_string(s.clone())"),
         rw.simple("local", r"Value::new\(Value_::Float\(f\.into_inner\(\)\)\)", "Value::new_float(f)"),
+        rw.simple("R2", r"Type::from_fun_info\(fun_info, &env\.types, &env\.stack\.type_bindings\(\)\)\s*\.unwrap_or_err_ty\(\)", "vfun_runtime_type(fun_info, env)"),
+        rw.simple("R11", r"stack_frame\.bindings\.block_bindings\.clone\(\)", "vc_clone(&stack_frame.bindings.block_bindings)"),
+        rw.simple("R11", r"\bfun_info\.clone\(\)", "vc_clone(fun_info)"),
     ]
     PUSH_LOOP = dict(invariant=[("frame", "env.stack.0@.len() >= 1, others_same(*old(env), *env), blocks(*env) == blocks(*old(env)), vals(*env) == vals(*old(env))"),
                                 ("only_non_owner_entries", "owners(pend(*env)) == owners(pend(*old(env)))")],
@@ -738,6 +744,7 @@ def build(tier):
     arm2("DotAccess", "Expression_::DotAccess(recv, sym) => {", needs=1)
     arm2("NamespaceAccess", "Expression_::NamespaceAccess(recv, sym) => {", needs=1)
     arm2("Parentheses", "Expression_::Parentheses(paren) => {")
+    arm2("FunLiteral", "Expression_::FunLiteral(fun_info) => {")
     arm2("Invalid", "Expression_::Invalid => {")
     # literal arms: pop the evaluated elements (first loop), or schedule them (second loop)
     rw.ITER_BY_VALUE_OK.add("item_exprs")
